@@ -49,7 +49,7 @@ Sides(c) == CASE Dim(c) = 1 -> {"left", "right"}
 SideAxis(s) == IF s \in {"left", "right"} THEN 1 ELSE IF s \in {"bottom", "top"} THEN 2 ELSE 3
 
 ShapeFamilies == {"scalar", "size1", "dims", "dims+2", "transposed", "dims+1", "toolong",
-                  "rank+1", "rank-1", "flat"}
+                  "rank+1", "rank-1", "flat", "ghost_transposed", "ghost_flat", "ghost_regrouped"}
 TermKinds == {"matrix", "vector", "pair", "negmatrix", "negvector", "array0d", "array3d",
               "swappedpair", "pair3d", "float", "none", "list", "string"}
 BCArgKinds == {"ndarray", "float", "list", "none", "int"}
@@ -80,6 +80,8 @@ Requests ==
 
 \* an initial-value shape family is meaningful for dims n (otherwise it coincides with an
 \* accepted shape, e.g. the transpose of a square block) - those requests are skipped
+RECURSIVE Prod(_)
+Prod(s) == IF s = <<>> THEN 1 ELSE Head(s) * Prod(Tail(s))
 Plus(n, d) == [a \in 1..Len(n) |-> n[a] + d]
 Rev(n) == [a \in 1..Len(n) |-> n[Len(n) + 1 - a]]
 ShapeOf(f, n) ==
@@ -89,9 +91,11 @@ ShapeOf(f, n) ==
     [] f = "rank+1" -> n \o <<2>>
     [] f = "rank-1" -> IF Len(n) = 1 THEN <<>> ELSE SubSeq(n, 1, Len(n) - 1)
     [] f = "flat" -> <<7>>
+    [] f = "ghost_transposed" -> Rev(Plus(n, 2))            \* as many elements as the ghost-inclusive array
+    [] f = "ghost_flat" -> <<Prod(Plus(n, 2))>>
+    [] f = "ghost_regrouped" -> IF Len(n) = 1 THEN <<Prod(Plus(n, 2)), 1>>
+                                ELSE <<Plus(n, 2)[1] * Plus(n, 2)[2]>> \o SubSeq(Plus(n, 2), 3, Len(n)) \o <<1>>
     [] OTHER -> <<>>
-RECURSIVE Prod(_)
-Prod(s) == IF s = <<>> THEN 1 ELSE Head(s) * Prod(Tail(s))
 ShapeAccepted(f, n) == f \in {"scalar", "size1", "dims", "dims+2"}   \* docs: scalar, one element,
                                                                      \* grid shape, grid-with-ghosts shape
 Meaningful(r) ==
